@@ -43,25 +43,25 @@ Init20 == DirInit(InitUsers, InitGroups) /\ hist = <<>>
 AddAttrsBind == { <<Attr("a2", <<"v1">>)>>, <<Attr("password", <<"p">>), Attr("a1", <<"v1">>)>> }
 NextAll ==
      \/ \E dn \in {"u1", "n1", "n2"}, as \in AddAttrs : Add(dn, as) /\ hist' = Append(hist, Ev("add", dn, as, <<>>, "", FALSE))
-     \/ \E dn \in {"u1", "n1", "mz"}, chs \in ChangeLists :
+     \/ \E dn \in {"u1", "n1", "mz", "pu1"}, chs \in ChangeLists :
            ReplaceOK(dn, chs) /\ Modify(dn, chs) /\ hist' = Append(hist, Ev("modify", dn, <<>>, chs, "", FALSE))
-     \/ \E dn \in {"u1", "n1", "g1", "mz"} : Delete(dn) /\ hist' = Append(hist, Ev("delete", dn, <<>>, <<>>, "", FALSE))
+     \/ \E dn \in {"u1", "n1", "g1", "mz", "pu1"} : Delete(dn) /\ hist' = Append(hist, Ev("delete", dn, <<>>, <<>>, "", FALSE))
      \/ SetUsers(InitUsers) /\ hist' = Append(hist, Ev("setusers", "init", <<>>, <<>>, "", FALSE))
      \/ SetUsers(<<>>) /\ hist' = Append(hist, Ev("setusers", "none", <<>>, <<>>, "", FALSE))
      \/ SetGroups(<<>>) /\ hist' = Append(hist, Ev("setgroups", "none", <<>>, <<>>, "", FALSE))
      \/ \E b \in BOOLEAN : SetAnon(b) /\ hist' = Append(hist, Ev("setanon", "", <<>>, <<>>, "", b))
      \/ SetTokenGroups(TG1) /\ hist' = Append(hist, Ev("settokengroups", "tg1", <<>>, <<>>, "", FALSE))
      \/ SetTokenGroups(<<>>) /\ hist' = Append(hist, Ev("settokengroups", "none", <<>>, <<>>, "", FALSE))
-     \/ \E dn \in {"u1", "n1"}, pw \in {"p", "q", ""} : Bind(dn, pw) /\ hist' = Append(hist, Ev("bind", dn, <<>>, <<>>, pw, FALSE))
+     \/ \E dn \in {"u1", "n1", "pu1"}, pw \in {"p", "q", ""} : Bind(dn, pw) /\ hist' = Append(hist, Ev("bind", dn, <<>>, <<>>, pw, FALSE))
 NextBind ==
      \/ \E dn \in {"u1", "n1"}, as \in AddAttrsBind : Add(dn, as) /\ hist' = Append(hist, Ev("add", dn, as, <<>>, "", FALSE))
      \/ \E dn \in {"u1"}, chs \in {<<Ch("replace", "password", <<"q">>)>>, <<Ch("delete", "password", <<>>)>>} :
            ReplaceOK(dn, chs) /\ Modify(dn, chs) /\ hist' = Append(hist, Ev("modify", dn, <<>>, chs, "", FALSE))
-     \/ \E dn \in {"u1", "n1"} : Delete(dn) /\ hist' = Append(hist, Ev("delete", dn, <<>>, <<>>, "", FALSE))
+     \/ \E dn \in {"u1", "n1", "pu1"} : Delete(dn) /\ hist' = Append(hist, Ev("delete", dn, <<>>, <<>>, "", FALSE))
      \/ SetUsers(InitUsers) /\ hist' = Append(hist, Ev("setusers", "init", <<>>, <<>>, "", FALSE))
      \/ SetUsers(<<>>) /\ hist' = Append(hist, Ev("setusers", "none", <<>>, <<>>, "", FALSE))
      \/ SetAnon(TRUE) /\ hist' = Append(hist, Ev("setanon", "", <<>>, <<>>, "", TRUE))
-     \/ \E dn \in {"u1", "n1"}, pw \in {"p", "q", ""} : Bind(dn, pw) /\ hist' = Append(hist, Ev("bind", dn, <<>>, <<>>, pw, FALSE))
+     \/ \E dn \in {"u1", "n1", "pu1"}, pw \in {"p", "q", ""} : Bind(dn, pw) /\ hist' = Append(hist, Ev("bind", dn, <<>>, <<>>, pw, FALSE))
 Next20 == Len(hist) < Depth /\ (IF Focus = "bind" THEN NextBind ELSE NextAll)
 Spec20 == Init20 /\ [][Next20]_vars20
 
@@ -82,6 +82,6 @@ DeleteGone == [][\A dn \in UserPool \cup GroupPool \cup {"mz"} :
                  (reply'.op = "delete" /\ hist' # hist /\ hist'[Len(hist')].dn = dn) =>
                     IF reply'.code = Success THEN Len(SearchUsers(dn)') + Len(SearchGroups(dn)') < Len(SearchUsers(dn)) + Len(SearchGroups(dn))
                     ELSE reply'.code = NoSuchObject /\ SearchUsers(dn) = <<>> /\ SearchGroups(dn) = <<>> /\ UNCHANGED <<users, groups>>]_vars20
-ModifyMissing == [][(reply'.op = "modify" /\ hist' # hist /\ SearchUsers(hist'[Len(hist')].dn) = <<>>) =>
+ModifyMissing == [][(reply'.op = "modify" /\ hist' # hist /\ Indices(users, hist'[Len(hist')].dn) = {}) =>
                        reply'.code = NoSuchObject /\ users' = users]_vars20
 =============================================================================
